@@ -261,9 +261,16 @@ def eval_model(m, seed):
     # public switches of the settings that decide how the features of this model are generated
     # (they do not enter the evaluation below, but a reloaded model that generates other
     # features is another functional)
+    import inspect
+
     for sub in ("sl_settings", "nldf_settings", "sdmx_settings"):
         ss = getattr(st, sub, None)
-        for attr in ("integral_type", "mode", "level", "nldf_type", "rho_mult", "n0terms", "n1terms", "nfeat"):
+        # ... including whatever the constructor of the settings class takes (its defining state)
+        try:
+            ctor = [a for a in inspect.signature(type(ss).__init__).parameters if a != "self"] if ss is not None else []
+        except (TypeError, ValueError):
+            ctor = []
+        for attr in ["integral_type", "mode", "level", "nldf_type", "rho_mult", "n0terms", "n1terms", "nfeat"] + sorted(ctor):
             if ss is not None and hasattr(ss, attr):
                 try:
                     h.update(("%s.%s=%r" % (sub, attr, getattr(ss, attr))).encode())
@@ -282,6 +289,17 @@ def eval_model(m, seed):
         with np.errstate(all="ignore"):
             X0TN = st.normalizers.get_normalized_feature_vector(X0T)
             _add(h, X0TN)
+            # single-precision descriptors (what a data pipeline that stores float32 hands over):
+            # result dtype and bits must agree, whatever scalar types the parameters have
+            try:
+                X32 = st.normalizers.get_normalized_feature_vector(X0T.astype(np.float32))
+                h.update(str(X32.dtype).encode())
+                _add(h, X32)
+                D32 = st.normalizers.get_derivative_of_normed_features(X0T.astype(np.float32), (0.25 * X0T + 0.125).astype(np.float32))
+                h.update(str(D32.dtype).encode())
+                _add(h, D32)
+            except Exception as e:
+                h.update(("f32!" + type(e).__name__).encode())
             for rhocut in (0.0, 1e-9):
                 if isinstance(m, MappedXC2):
                     r = np.random.default_rng(seed + 7 + nspin)
